@@ -1,6 +1,8 @@
 package main
 
 import (
+	"crypto/sha256"
+	"encoding/hex"
 	"fmt"
 	"os"
 	"time"
@@ -17,6 +19,8 @@ import (
 	spendingtypes "github.com/KiraCore/sekai/x/spending/types"
 	tokenstypes "github.com/KiraCore/sekai/x/tokens/types"
 	ubitypes "github.com/KiraCore/sekai/x/ubi/types"
+	tmproto "github.com/cometbft/cometbft/proto/tendermint/types"
+	"github.com/cosmos/cosmos-sdk/crypto/keys/secp256k1"
 	sdk "github.com/cosmos/cosmos-sdk/types"
 	authtypes "github.com/cosmos/cosmos-sdk/x/auth/types"
 	banktypes "github.com/cosmos/cosmos-sdk/x/bank/types"
@@ -53,13 +57,19 @@ func newEnv(seed uint64, dist hx.Counter) *env {
 	}
 	e.nNative = int64(len(natives) - 1)
 	e.valPool = make([]uint64, 2)
+	for _, v := range e.c.Validators {
+		e.valAddr = append(e.valAddr, v.ValAddr.String())
+	}
+	for i := 1; i < NACC; i++ {
+		e.live = append(e.live, i)
+	}
 	return e
 }
 
 
 func (e *env) addr(i int) string        { return e.c.Accounts[i].Addr.String() }
 func (e *env) accAddr(i int) sdk.AccAddress { return e.c.Accounts[i].Addr }
-func (e *env) valStr(v int) string      { return e.c.Validators[v].ValAddr.String() }
+func (e *env) valStr(v int) string      { return e.valAddr[v] }
 
 func (e *env) poolOf(v int) (mstypes.StakingPool, bool) {
 	return e.c.App.MultiStakingKeeper.GetStakingPoolByValidator(e.ctx(), e.valStr(v))
@@ -590,4 +600,122 @@ func (e *env) perturbCoins(cs sdk.Coins) sdk.Coins {
 		return sdk.Coins{}
 	}
 	return cs
+}
+
+// ---------------------------------------------------------------- address rotation (x/recovery rewrites other modules' records)
+func freshKey(seed uint64, n int) *secp256k1.PrivKey {
+	b := make([]byte, 32)
+	r := hx.NewRng(seed*7_777_777 + uint64(n)*13 + 5)
+	for j := range b {
+		b[j] = byte(r.Next())
+	}
+	b[0] |= 1
+	return &secp256k1.PrivKey{Key: b}
+}
+
+// MsgRotateValidatorByHalfRRTokenHolder: the validator account `val` (has issued RR tokens, owns a staking pool) is
+// rotated to a fresh address by the RR holder `holder`
+func (e *env) rotateValidator(v int, holder int) bool {
+	va, _ := sdk.ValAddressFromBech32(e.valAddr[v])
+	owner := sdk.AccAddress(va)
+	e.nRot++
+	fresh := sdk.AccAddress(freshKey(hx.Seed(), 1000+e.nRot).PubKey().Address())
+	ok := e.tx("rotate_validator", holder, []sdk.Msg{recoverytypes.NewMsgRotateValidatorByHalfRRTokenHolder(e.addr(holder), owner.String(), fresh.String())}, nil,
+		map[string]interface{}{"validator": v, "holder": holder, "old": owner.String(), "new": fresh.String()})
+	if ok {
+		e.valAddr[v] = sdk.ValAddress(fresh).String()
+	}
+	return ok
+}
+
+// MsgRegisterRecoverySecret + MsgRotateRecoveryAddress: account u moves to a fresh address (with a key, so that the rotated
+// account keeps acting: it becomes a new account index)
+func (e *env) rotateAccount(u int) bool {
+	e.nRot++
+	proof := fmt.Sprintf("%064x", e.nRot+77)
+	pb, _ := hex.DecodeString(proof)
+	h := sha256.Sum256(pb)
+	if !e.tx("register_secret", u, []sdk.Msg{recoverytypes.NewMsgRegisterRecoverySecret(e.addr(u), hex.EncodeToString(h[:]), "00", "")}, nil, map[string]interface{}{"account": u}) {
+		return false
+	}
+	key := freshKey(hx.Seed(), e.nRot)
+	fresh := sdk.AccAddress(key.PubKey().Address())
+	idx := len(e.c.Accounts)
+	// the new address is registered as a user account of the model before the step is observed
+	e.acc[fresh.String()] = 100 + int64(idx)
+	e.accName[100+int64(idx)] = fmt.Sprintf("a%d(rotated from a%d)", idx, u)
+	ok := e.tx("rotate_account", u, []sdk.Msg{recoverytypes.NewMsgRotateRecoveryAddress(e.addr(u), e.addr(u), fresh.String(), proof)}, nil,
+		map[string]interface{}{"account": u, "new_account": idx})
+	e.c.Accounts = append(e.c.Accounts, abci.Account{Priv: key, Addr: fresh, Name: fmt.Sprintf("a%d", idx)})
+	if ok {
+		for i, x := range e.live {
+			if x == u {
+				e.live[i] = idx
+			}
+		}
+	}
+	return ok
+}
+
+// ---------------------------------------------------------------- genesis export / re-import in the middle of a history
+// The committed state is exported and imported into a fresh application; the imported balances, supply and module records
+// are observed as a step ("reimport": what differs from the running chain), judged by the same clauses, and the history
+// resumes on the running chain ("resume").
+func (e *env) reimport() {
+	if e.inBlock {
+		return
+	}
+	state, p := e.c.Export()
+	if p != "" {
+		e.notes = append(e.notes, "export panicked: "+p)
+		e.dist.Inc("reimport:export-panic")
+		return
+	}
+	c2, p2 := abci.NewChainFromExport(e.c, state)
+	if p2 != "" {
+		e.notes = append(e.notes, "re-import panicked: "+p2)
+		e.dist.Inc("reimport:import-panic")
+		return
+	}
+	back := e.prev
+	var next *snapshot
+	if p3 := hx.Try(func() {
+		// InitChain leaves the imported state in the deliver state: read it there
+		next = e.snapOf(c2, c2.App.BaseApp.NewContext(false, tmproto.Header{ChainID: abci.ChainID, Height: c2.Height, Time: c2.Time}))
+	}); p3 != "" {
+		e.notes = append(e.notes, "observing the imported state panicked: "+p3)
+		return
+	}
+	e.recordSnap(stepInfo{kind: "reimport", ok: true, args: map[string]interface{}{"height": e.c.Height}}, nil, next)
+	e.recordSnap(stepInfo{kind: "resume", ok: true}, nil, back)
+}
+
+// several messages of the same type in ONE transaction (atomic): the model runs the concatenation
+func (e *env) multiDeposit(u int, pools []string, den string, amt int64) bool {
+	var msgs []sdk.Msg
+	var model []string
+	known := true
+	for i, pl := range pools {
+		a := amt + int64(i)
+		msgs = append(msgs, spendingtypes.NewMsgDepositSpendingPool(pl, coins(den, a), e.accAddr(u)))
+		idx, ok := e.spools[pl]
+		known = known && ok
+		model = append(model, fmt.Sprintf("SpDeposit %d %d %d %d", 100+u, idx, e.denID(den), a))
+	}
+	if !known {
+		model = nil
+	}
+	return e.tx("sp_deposit", u, msgs, model, map[string]interface{}{"account": u, "pools": pools, "denom": den, "amount_first": amt, "messages": len(msgs)})
+}
+func (e *env) multiDelegate(u, v int, den string, amt int64, n int) bool {
+	p, found := e.poolOf(v)
+	var msgs []sdk.Msg
+	var model []string
+	for i := 0; i < n; i++ {
+		msgs = append(msgs, mstypes.NewMsgDelegate(e.addr(u), e.valStr(v), coins(den, amt+int64(i))))
+		if found {
+			model = append(model, fmt.Sprintf("MsDelegate %d %d %d %d", 100+u, p.Id, e.denID(den), amt+int64(i)))
+		}
+	}
+	return e.tx("delegate", u, msgs, model, map[string]interface{}{"account": u, "validator": v, "denom": den, "amount_first": amt, "messages": n})
 }
